@@ -39,6 +39,9 @@ def class_keys(prog):
         nm = n["name"]
         if k == "delayed":
             return
+        if k == "ctxscope":
+            key_of[nm] = arg_key(n["args"][0])[0]       # a wiring-time scope, not a node
+            return
         if k == "feedback":
             unique += 1
             add(nm, ("fb", nm), count=False)   # add_unique_node: identity is the allocation site
@@ -99,7 +102,7 @@ def duplicate_some(prog, rng):
     k = 0
     for n in nodes:
         out.append(n)
-        if n["kind"] in ("feedback", "delayed"):
+        if n["kind"] in ("feedback", "delayed", "ctxscope"):
             continue
         r = rng.random()
         if r < 0.30:
@@ -184,7 +187,7 @@ class C06:
 
     def gen(self, seed):
         rng = random.Random(seed)
-        prog = gen_dataflow.gen_program(rng.getrandbits(48), size=rng.randint(2, 16), allow=dict(how=("inline", "nested"), nested_over_ref=False))
+        prog = gen_dataflow.gen_program(rng.getrandbits(48), size=rng.randint(2, 16), allow=dict(how=("inline", "nested"), nested_over_ref=False, ctx=True))
         # depth >= 2 nesting only where recorders are Valid (F1 is invisible to them)
         for s in prog["sinks"]:
             s["kind"] = "rec"
